@@ -106,6 +106,14 @@ enum Want {
 }
 
 fn want_any_amount(v: &Verdict) -> Want {
+    // a bare number that is zero (or not) only up to the rounding of an inexact intermediate
+    // result: a 28-place evaluator may see it on either side of zero, so neither verdict is owed
+    if let Verdict::Value(V::Num(q)) = v {
+        let err = ERR_BOUND.with(|c| c.get());
+        if err > 0.0 && (q.n as f64 / q.d as f64).abs() <= err * 16.0 + 1e-27 {
+            return Want::Unspecified;
+        }
+    }
     match v {
         Verdict::Value(V::Num(q)) if q.is_zero() => Want::Value(BTreeMap::new()),
         Verdict::Value(V::Num(_)) => Want::MustError("non-zero-bare-number-as-amount"),
